@@ -1430,6 +1430,99 @@ def rule_r19(prog, res):
                         'YAML/MessagePack/HttpRpc' % (c.name, nm))
 
 
+def rule_r20(prog, res):
+    res.rule('R20', 'dict documents test an array member against the '
+             'array\'s own occurrence bounds and count its items where the '
+             'array is read (the hierarchical reader counts keys, not items)')
+    d = prog.cls('spyne.protocol.dictdoc._base:DictDocument')
+    f = d.methods.get('_check_freq_dict')
+    if f is None:
+        raise AnalysisError('DictDocument._check_freq_dict', 'not found')
+    n = 0
+    for br in walk_no_defs(f.node):
+        if not (isinstance(br, ast.If) and 'Array' in unparse(br.test)):
+            continue
+        rebinds = [a for st in br.body for a in ast.walk(st)
+                   if isinstance(a, ast.Assign) and any(
+                       isinstance(x, ast.Name) and x.id in ('min_o', 'max_o')
+                       for t in a.targets for x in ast.walk(t))]
+        if not rebinds:
+            continue
+        n += 1
+        first = min(a.lineno for a in rebinds)
+        own = [r for st in br.body for r in ast.walk(st)
+               if isinstance(r, ast.Raise) and r.lineno < first]
+        ok = bool(own)
+        where = '%s:%d' % (f.module.relpath, br.lineno)
+        res.ob('R20', where, '_check_freq_dict %s the array\'s own '
+               'min_occurs before it switches to the bounds of the item type'
+               % ('tests' if ok else 'discards'), 'ok' if ok else 'VIOLATED')
+        if not ok:
+            res.finding('R20', 'DictDocument._check_freq_dict|array-bounds-'
+                        'discarded', where, 'for an Array member the bounds '
+                        'are replaced by those of the item type before the '
+                        'count is compared: a missing Array(Unicode, '
+                        'min_occurs=1) passes against the item type\'s '
+                        'min_occurs=0 over JSON/YAML/MessagePack/HttpRpc '
+                        'while XML and SOAP refuse it')
+    res.floor('R20', 'array branches in _check_freq_dict', n, 1)
+    h = prog.cls('spyne.protocol.dictdoc.hier:HierDictDocument')
+    g_ = h.methods.get('_doc_to_object')
+    if g_ is None:
+        raise AnalysisError('HierDictDocument._doc_to_object', 'not found')
+    # what the hierarchical reader counts per member
+    per_key = any(isinstance(a, ast.AugAssign) and
+                  'frequencies' in unparse(a.target) and isinstance(
+                      a.value, ast.Constant) and a.value.value == 1
+                  for a in walk_no_defs(g_.node))
+    calls = [c for c in calls_in(g_.node)
+             if call_name(c) == '_check_freq_dict']
+    res.floor('R20', 'frequency checks in _doc_to_object', len(calls), 1)
+    for c in calls:
+        flag = [k.value for k in c.keywords if k.arg == 'counts_items']
+        if len(c.args) >= 4:
+            flag = [c.args[3]]
+        says_keys = bool(flag) and isinstance(flag[0], ast.Constant) and \
+            flag[0].value is False
+        ok = says_keys or not per_key
+        where = '%s:%d' % (g_.module.relpath, c.lineno)
+        res.ob('R20', where, '_doc_to_object counts keys and tells '
+               '_check_freq_dict %s' % ('so' if ok else 'nothing: the count '
+                                        'is taken for a number of items'),
+               'ok' if ok else 'VIOLATED')
+        if not ok:
+            res.finding('R20', 'HierDictDocument._doc_to_object|key-count-as-'
+                        'item-count', where, 'the reader adds 1 per key and '
+                        '_check_freq_dict compares that with the item '
+                        'bounds of an Array member: Array(Unicode(min_occurs='
+                        '2, max_occurs=3)) is refused for 2 and 3 items and '
+                        'max_occurs=2 accepts 3')
+    arr = [b for b in walk_no_defs(g_.node) if isinstance(b, ast.If) and
+           unparse(b.test) == 'issubclass(cls, Array)']
+    res.floor('R20', 'array branches in _doc_to_object', len(arr), 1)
+    for b in arr:
+        cmps = [c for st in b.body for c in ast.walk(st)
+                if isinstance(c, ast.Compare) and any(
+                    isinstance(x, ast.Call) and call_name(x) == 'len'
+                    for x in ast.walk(c))]
+        lo = any('min_occurs' in unparse(c) for c in cmps)
+        hi = any('max_occurs' in unparse(c) for c in cmps)
+        raises = [r for st in b.body for r in ast.walk(st)
+                  if isinstance(r, ast.Raise)]
+        ok = lo and hi and len(raises) >= 3
+        where = '%s:%d' % (g_.module.relpath, b.lineno)
+        res.ob('R20', where, '_doc_to_object compares the number of items '
+               'of an array with min_occurs: %s, max_occurs: %s' % (lo, hi),
+               'ok' if ok else 'VIOLATED')
+        if not ok:
+            res.finding('R20', 'HierDictDocument._doc_to_object|items-not-'
+                        'counted|%s' % ('max' if lo else 'min'), where,
+                        'the array reader never compares the number of items '
+                        'with the %s of the item type: the verdict differs '
+                        'from HttpRpc for the same logical request' % (
+                            'max_occurs' if lo else 'min_occurs'))
+
+
 def run(prog, res, tier):
     res.run_rule(rule_r1, prog, res)
     res.run_rule(rule_r2, prog, res)
@@ -1450,6 +1543,7 @@ def run(prog, res, tier):
     res.run_rule(rule_r17, prog, res)
     res.run_rule(rule_r18, prog, res)
     res.run_rule(rule_r19, prog, res)
+    res.run_rule(rule_r20, prog, res)
 
 
 _X = 'spyne/protocol/xml.py'
@@ -1463,6 +1557,24 @@ _I = 'spyne/protocol/_inbase.py'
 _SI = 'spyne/protocol/dictdoc/simple.py'
 
 MUTANTS = [
+    Mutant('array-own-bounds-discarded', 'R20', 'fire', _D,
+           in_func('DictDocument._check_freq_dict',
+                   "                if val == 0 and min_o > 0:\n"
+                   "                    raise ValidationError(\"%r.%s\" % (cls"
+                   ", k),\n                             '%%s member must occur"
+                   " at least %d times.' % min_o)\n", ""),
+           'array-bounds-discarded'),
+    Mutant('hier-key-count-as-items', 'R20', 'fire', _H,
+           in_func('HierDictDocument._doc_to_object',
+                   "            self._check_freq_dict(cls, frequencies, "
+                   "flat_type_info,\n                                        "
+                   "                     counts_items=False)\n",
+                   "            self._check_freq_dict(cls, frequencies, "
+                   "flat_type_info)\n"), 'key-count-as-item-count'),
+    Mutant('array-items-max-unchecked', 'R20', 'fire', _H,
+           in_func('HierDictDocument._doc_to_object',
+                   "                if len(retval) > attrs.max_occurs:\n",
+                   "                if False:\n"), 'items-not-counted'),
     Mutant('xml-modifier-validates-itself', 'R19', 'fire',
            'spyne/model/complex.py',
            in_func('XmlModifier.validate_native',
@@ -1517,12 +1629,13 @@ MUTANTS = [
                    "attributes.\n",
                    "        if len(elt) == 0 and len(elt.attrib) == 0:\n"
                    "            return inst\n"), 'early-return'),
-    Mutant('count-after-attr-loop', 'R2', 'fire', _X,
+    Mutant('count-key-rebound-by-loop', 'R2', 'fire', _X,
            in_func('XmlDocument.complex_from_element',
-                   r"(            frequencies\[key\] \+= 1\n)(.*?)"
-                   r"(\n        for key, value_str in elt\.attrib\.items)",
-                   lambda m_: m_.group(2) + "\n" + m_.group(1) + m_.group(3),
-                   regex=True), 'count-key-shadowed'),
+                   "            key = c.tag.split('}', 1)[-1]\n",
+                   "            key = c.tag.split('}', 1)[-1]\n"
+                   "            for key in c.attrib:\n"
+                   "                logger.debug('attribute %r', key)\n"),
+           'count-key-shadowed'),
     Mutant('native-check-skips-none', 'R7', 'fire', _H,
            in_func('HierDictDocument._from_dict_value',
                    "        if validator is self.SOFT_VALIDATION:\n"
